@@ -31,7 +31,7 @@ type Res struct {
 	Verdict string `json:"v"`
 	Tip     string `json:"tip"`
 	Height  uint32 `json:"h"`
-	Dump    string `json:"dump"` // chainkit.DumpHash of the whole unspent set after the op
+	Dump    string `json:"dump"`           // chainkit.DumpHash of the whole unspent set after the op
 	Undo    string `json:"undo,omitempty"` // after a block: digest of the tip's undo file (records sorted)
 }
 
